@@ -267,7 +267,7 @@ def run_check(module, tier, seed, only_leg=None):
         'wall_s': round(wall, 2),
         'violations': len(unknown),
     }
-    if only_leg is None:
+    if only_leg is None and os.environ.get('VERIF_NO_EVIDENCE') != '1':
         os.makedirs(EVIDENCE_DIR, exist_ok=True)
         tmp = os.path.join(EVIDENCE_DIR, prop + '.json.tmp')
         with open(tmp, 'w') as f:
